@@ -95,6 +95,11 @@ var c10Tmpls = []c10Tmpl{
 	{".a, length", "map", "many", false, "union"},
 	{"length, keys", "map", "many", false, "union"},
 	{"., .", "any", "many", false, "union"},
+	// a bare literal of the expression updated in place (the parsed expression serves every document)
+	{"(.a // 0) as $l | 0 | . += ($l | length)", "map", "1", true, "literal-mutate"},
+	{"length as $n | 1 | . += $n", "any", "1", true, "literal-mutate"},
+	{"(.. | select(kind == \"scalar\")) as $x ireduce (0; . += 1)", "any", "1", true, "literal-mutate"},
+	{"\"s\" | . += \"x\" | . += \"y\"", "any", "1", true, "literal-mutate"},
 	{"pick([\"a\", \"b\"])", "map", "1", false, "pick-root"},
 	{"pick([0])", "seq", "1", false, "pick-root"},
 	{"omit([\"a\"])", "map", "1", false, "pick-root"},
